@@ -128,6 +128,52 @@ def depth_zero_flag(fn, name):
     return True
 
 
+def depth_counter(fn, name, node_name):
+    """Is the SSA value `name` an integer phi that is 0 only when the loop is entered and, on every back edge, is itself plus one
+    exactly where the walk's node (phi `node_name` of the same header) moves and itself where it stays?  Then (as long as it cannot
+    wrap) counter == 0 <=> the node is the one the loop started at.  Returns its width in bits, or None."""
+    phi = fn.defs.get(name)
+    nphi = fn.defs.get(node_name)
+    if phi is None or phi.op != "phi" or nphi is None or nphi.op != "phi" or nphi.block is not phi.block or not phi.ty.startswith("i"):
+        return None
+    try:
+        bits = int(phi.ty[1:])
+    except ValueError:
+        return None
+    node_in = {b: v for v, b in nphi.incoming}
+    zeros = 0
+    for v, b in phi.incoming:
+        nv = node_in.get(b)
+        if nv is None:
+            return None
+        node_stays = nv.k == "inst" and nv.name == nphi.name
+        if v.is_const_int() and v.uval == 0:
+            blk = fn.blocks[b]
+            if fn.can_reach(phi.block.insts[-1], blk.insts[-1]) and blk is not phi.block:
+                return None         # a zero arrives on a back edge
+            zeros += 1
+            continue
+        if v.k != "inst":
+            return None
+        if v.name == phi.name:
+            if not node_stays:
+                return None
+            continue
+        d = v.inst
+        # (a counter narrower than int is incremented as trunc(ext(counter) + 1))
+        if d is not None and d.op == "trunc" and d.ops[0].k == "inst":
+            d = d.ops[0].inst
+        base = d.ops[0] if d is not None and d.op == "add" else None
+        if base is not None and base.k == "inst" and base.inst is not None and base.inst.op in ("zext", "sext"):
+            base = base.inst.ops[0]
+        if d is not None and d.op == "add" and base.k == "inst" and base.name == phi.name and d.ops[1].is_const_int() and d.ops[1].uval == 1:
+            if node_stays:
+                return None
+            continue
+        return None
+    return bits if zeros == 1 else None
+
+
 def search_provenance(fn, m, owner, L, R, cursor_field=None):
     """Is the node `owner` (a loop-carried SSA value) produced only by  x->left  of the current node or  owner->right ?"""
     from .. import flow
@@ -373,6 +419,19 @@ def check_post_order(chk, m, L, R, CUR, PAR):
                         o = cc[2] if cc[3] == ("null",) else cc[3]
                         if o[0] == "sym" and depth_zero_flag(fn, o[1]):
                             root_eq = (cc[1] == "eq") == bool(taken)
+                    # ... or a depth counter: 0 on entry, +1 on every step to another node
+                    if cc[0] == "icmp" and cc[1] in ("eq", "ne") and cc[3][0] == "c" and cc[3][2] == 0 and strip_casts(cc[2])[0] == "sym" and tmp[0] == "sym":
+                        bits = depth_counter(fn, strip_casts(cc[2])[1], tmp[1])
+                        if bits is not None:
+                            root_eq = (cc[1] == "eq") == bool(taken)
+                            wide = bits >= m.ptr_size * 8
+                            chk.ob("M3.depth-counter", sid, wide,
+                                   "the walk recognises the root by a depth counter (0 on entry, +1 on every step down) that is as wide as a "
+                                   "pointer: it cannot wrap, because a path of that many distinct nodes does not fit in the address space"
+                                   if wide else
+                                   "the walk recognises the root by a %d-bit depth counter: a node %d steps below the root wraps it to 0 and "
+                                   "is taken for the root - iter->curr is cleared and the rest of the tree is never visited (nor freed by "
+                                   "bintree_free)" % (bits, 1 << bits), inst.loc if inst is not None else p.ret_inst.loc, fn.name)
             clr = [e for e in p.events if e.kind == "store" and ptr_parts(e.ptr) == (("arg", 0), CUR, ()) and e.val == ("null",)]
             if root_eq is None and not clr and any(e.kind == "load" and ptr_parts(e.ptr) == (("arg", 0), PAR, ()) for s_, q in ss for e in q.events):
                 # the walk resumes from iter->parent (a position cached from the previous call) instead of starting at the head:
